@@ -51,6 +51,40 @@ for _crss, _tag in ((("EPSG:3857",) * 3, "same_crs"), (("EPSG:3857", None, "EPSG
     lemma(f"values.GeoBox_laws_{_tag}", ["C19"], inputs=dict(a=GEOBOX(_crss[0], 0), b=GEOBOX(_crss[1], 0), c=GEOBOX(_crss[2], 0)), body=lambda a, b, c: _laws(a, b, c))
     lemma(f"values.GeoBox_token_{_tag}", ["C19"], inputs=dict(a=GEOBOX(_crss[0], 0), b=GEOBOX(_crss[1], 0)), body=_tok_law)
 
+
+
+class _GhostMapping:
+    """stand-in for a GCPMapping: GCPGeoBox equality / hash only use its identity"""
+
+    def __init__(self, tag):
+        self.tag = tag
+
+    def __vc_src__(self, model, c):
+        return f"R('contracts.values_c:_native_mapping')({self.tag!r})"
+
+
+_MAPPINGS = {}
+
+
+def _native_mapping(tag):
+    return _MAPPINGS.setdefault(tag, _GhostMapping(tag))
+
+
+def _gcpbox(mapping_tag, crs="EPSG:4326"):
+    from .math_c import AFFINE
+
+    return Obj("odc.geo.gcp:GCPGeoBox", _shape=Build(f"{TYPES}:Shape2d", x=Int(ge=1), y=Int(ge=1)), _affine=AFFINE(), _crs=CRSShape(crs), _mapping=Value(_native_mapping(mapping_tag)))
+
+
+for _tags in (("M", "M", "M"), ("M", "N", "M"), ("M", "M", "N")):
+    lemma(
+        "values.GCPGeoBox_laws_" + "".join(_tags),
+        ["C19"],
+        inputs=dict(a=_gcpbox(_tags[0]), b=_gcpbox(_tags[1]), c=_gcpbox(_tags[2])),
+        body=lambda a, b, c: _laws(a, b, c),
+        note="GCP GeoBoxes over shared / different control-point mappings (compared by identity: known finding), symbolic shape and pixel-plane affine: == is an equivalence and equal boxes hash alike",
+    )
+
 lemma("values.Tiles_laws", ["C19"], inputs=dict(a=TILES(), b=TILES(), c=TILES()), requires=[lambda a, b, c: And(wf_tiles(a), wf_tiles(b), wf_tiles(c))], body=lambda a, b, c: _laws(a, b, c, hashable=False))
 lemma("values.Tiles_token", ["C19"], inputs=dict(a=TILES(), b=TILES()), requires=[lambda a, b: And(wf_tiles(a), wf_tiles(b))], body=_tok_law, note="near-identical family: tilings differing in one field (base shape, tile shape)")
 
